@@ -537,6 +537,13 @@ def run(ctx, prog):
                          f'analysis layer writes distinguisher state attribute {node.attr}', f.where(st))
     if n6 == 0:
         ctx.ok('C01-D6', 'scared.analysis::*', f'no store to any of {len(state)} state attributes in {len([f for f in prog.funcs if f.mod.name.startswith("scared.analysis")])} analysis-layer functions')
+    # D2: the contribution has the accumulator's layout (no trace axis survives) - axis typing of initialise/update
+    ctx.rule('C01-D2', 'axis-label typing of _initialize/_update of every family: each accumulator update has the accumulator\'s '
+                       'layout and is obtained from the batch by contracting/reducing the trace axis N')
+    from .. import axes
+    n2 = axes.check_family(ctx, prog, 'C01-D2', ['scared.distinguishers.cpa', 'scared.distinguishers.dpa', 'scared.distinguishers.partitioned',
+                                                 'scared.distinguishers.mia', 'scared.distinguishers.template'])
+    ctx.floor('axis obligations (all families)', n2, 100)
     ctx.floor('accumulating classes', len(us), 23)
     ctx.floor('accumulators discovered', total_acc, 60)
     ctx.floor('accumulator store statements judged', total_stores, 60)
